@@ -10,23 +10,23 @@ import (
 // JSONToPlainStringMap conavert json map to a plain map
 func JSONToPlainStringMap(data []byte) (map[string]string, error) {
 	out := map[string]string{}
-	if err := jsonToPlainStringMap("", out, data); err != nil {
+	if err := jsonToPlainStringMap("", true, out, data); err != nil {
 		return nil, err
 	}
 	return out, nil
 }
 
-func jsonToPlainStringMap(resultKey string, result map[string]string, data []byte) error {
+func jsonToPlainStringMap(resultKey string, top bool, result map[string]string, data []byte) error {
 	return jsonparser.ObjectEach(data, func(key []byte, value []byte, dataType jsonparser.ValueType, offset int) error {
 		var newResultKey string
-		if resultKey != "" {
+		if !top {
 			newResultKey = resultKey + "." + string(key)
 		} else {
 			newResultKey = string(key)
 		}
 		switch dataType {
 		case jsonparser.Object:
-			return jsonToPlainStringMap(newResultKey, result, value)
+			return jsonToPlainStringMap(newResultKey, false, result, value)
 		case jsonparser.String:
 			unescaped, err := jsonparser.ParseString(value)
 			if err != nil {
